@@ -317,11 +317,39 @@ def spline(ctx):
     ctx.oblige("C02/RationalQuadraticSpline/ld_inv", ld_i == -log(sub_x(Dv)), pil.cond + pi.cond + [sub_x(c) for c in pd.cond], ["C02"], fn=q_il, replay=rp("inverse_and_log_det", "y"), **kw)
     ctx.control("C02/RationalQuadraticSpline/control/ld_off", ld_f == log(Dv) + 1, ptl.cond + pd.cond, ["C02"], fn=q_tl, **kw)
 
-    # ---------------- C18: every primitive on every branch, for EVERY real input (the log-prob is finite everywhere)
-    for p_, q_, var in ((pt, q_t, "x"), (pi, q_i, "y"), (pd, q_d, "x")):
-        mname = q_.rsplit(".", 1)[1]
-        for k_, (kind, guard, cond, note, where) in enumerate(p_.side):
-            if kind == "sqrt":
-                cond = cond.arg(0) > 0  # the derivative of sqrt is finite only for a strictly positive argument
-            ctx.oblige(f"C18/RationalQuadraticSpline.{mname}/gradsafe/{kind}#{k_}", cond, guard + p_.cond, ["C18"], kind=f"gradsafe/{kind}", fn=q_, replay=rp(mname, var),
-                       note=f"{note}: evaluated on every where-branch at a point where value and derivative are finite / index in range", **kw)
+    # ---------------- C18: every primitive on every branch, for EVERY real input (the log-prob is finite everywhere).
+    # Case by case (3 in-bin cases + outside; exhaustive by lemma bin_exists + cases_exhaustive), on contextual runs,
+    # with the single-bin lemmas (den > 0; discriminant > 0, -b - sqrt < 0) instantiated at the bin actually used.
+    def den_at(ib, v):
+        return den_r(*binargs(ib), v)
+
+    def disc_facts(ib, v):
+        a_, b_, c_ = abc_r(*binargs(ib), v)
+        d_ = b_ * b_ - 4 * a_ * c_
+        return z3.And(d_ > 0, -b_ - sqrt(d_) < 0)
+
+    for meth, var, p_gen, q_, arr, ssf, inb in (("transform", x, pt, q_t, XP, ssx, inb_x), ("derivative", x, pd, q_d, XP, ssx, inb_x), ("inverse", y, pi, q_i, YP, ssy, inb_y)):
+        in_bin_v = z3.And(i >= 0, i <= n - 2, arr[i] <= var, var <= arr[i + 1])
+        ss_lo = SS["left"](arr, n, lo)
+        cases = [("interior_or_right_knot", [in_bin_v, arr[i] < var], [("in_bounds", inb), ("bin_bounds", bnd), ("lookup", ssf == i + 1)], i, var),
+                 ("first_knot", [in_bin_v, var == arr[i], i == 0], [("in_bounds", inb), ("bin_bounds", bnd), ("lookup", ssf == 0)], z3.IntVal(0), var),
+                 ("inner_left_knot", [in_bin_v, var == arr[i], i >= 1], [("in_bounds", inb), ("bin_bounds", bnd), ("lookup", ssf == i)], i - 1, var),
+                 ("outside", [z3.Not(inb)], [("lookup", ss_lo == 0)], z3.IntVal(0), lo)]
+        for cname, base, cuts, ib, vr in cases:
+            lem = [den_at(ib, vr) > 0] if meth != "inverse" else [disc_facts(ib, vr)]
+            lem += [arr[ib] <= vr, vr <= arr[ib + 1], XP[ib] < XP[ib + 1], YP[ib] < YP[ib + 1], D[ib] > 0, D[ib + 1] > 0]
+            pc = ctx_run(meth, SV(var), base + [c for _n, c in cuts] + lem)
+            for cn, cf in cuts:
+                ctx.oblige(f"C18/RationalQuadraticSpline.{meth}[{cname}]/cut:{cn}", cf, p_gen.cond + base, ["C18"], kind="cut", fn=q_, replay=rp(meth, "x" if var is x else "y"), **kw)
+            ctx.oblige(f"C18/RationalQuadraticSpline.{meth}[{cname}]/lemma_instance_hypotheses", z3.And(*lem[1:]), base + [c for _n, c in cuts], ["C18"], kind="cut", fn=q_, **kw)
+            if pc is None:
+                ctx.oblige(f"C18/RationalQuadraticSpline.{meth}[{cname}]/struct/straight_line", False, [], ["C18"], kind="struct", fn=q_)
+                continue
+            for k_, (kind, guard, cond, note, where) in enumerate(pc.side):
+                if kind == "sqrt":
+                    cond = cond.arg(0) > 0  # the derivative of sqrt is finite only for a strictly positive argument
+                ctx.oblige(f"C18/RationalQuadraticSpline.{meth}[{cname}]/gradsafe/{kind}#{k_}", cond, guard + pc.cond, ["C18"], kind=f"gradsafe/{kind}", fn=q_, replay=rp(meth, "x" if var is x else "y"),
+                           note=f"{note}: evaluated on every where-branch at a point where value and derivative are finite / index in range",
+                           cites=["C07/spline_math/den_positive", "C18/spline_math/discriminant_positive"], **kw)
+        ctx.oblige(f"C18/RationalQuadraticSpline.{meth}/cases_exhaustive", z3.Or(z3.Not(inb), z3.And(z3.substitute(in_bin_v, (i, z3.If(ssf - 1 < 0, z3.IntVal(0), ssf - 1))))),
+                   [ss_contract(arr, var, ssf)], ["C18"], kind="cases", fn=q_, **kw)
